@@ -87,6 +87,15 @@ Theorem C11_no_ub_prodVecMatInPlace_refuted : exists d x y c,
 Proof. exact prodVecMatInPlace_dense_refuted. Qed.
 Print Assumptions C11_no_ub_prodVecMatInPlace_refuted.
 
+Theorem C11_addScalar_dense : forall d v, wfd d ->
+  exists r, D_addScalar d v = Ok r /\ nr r = nr d /\ nc r = nc d /\ meq (nr d) (nc d) (absd r) (maddc v (absd d)).
+Proof. exact addScalar_dense. Qed.
+Print Assumptions C11_addScalar_dense.
+Theorem C11_prodScalar_dense : forall d v, wfd d ->
+  exists r, D_prodScalar d v = Ok r /\ nr r = nr d /\ nc r = nc d /\ meq (nr d) (nc d) (absd r) (mscal v (absd d)).
+Proof. exact prodScalar_dense. Qed.
+Print Assumptions C11_prodScalar_dense.
+
 (* element, row, column access *)
 Theorem C11_setValue_dense : forall d i j v, wfd d -> (i < nr d)%nat -> (j < nc d)%nat ->
   exists r, D_setValue false d i j v = Ok r /\ nr r = nr d /\ nc r = nc d /\ wfd r /\
